@@ -1,5 +1,5 @@
 (* C34 — proofs of the lemmas that Props/C34_props.v closes with `exact`. *)
-From PV Require Import Bytes C34.
+From PV Require Import Bytes C34_gen C34.
 From Coq Require Import ZArith List Bool Lia.
 Import ListNotations.
 Open Scope Z_scope.
@@ -256,3 +256,16 @@ Lemma double_slash_kept :
   canonicalize [SLASH; SLASH; SLASH; 120] = [SLASH; 120] /\
   canonicalize [SLASH; SLASH; DOT; DOT; SLASH; 120] = [SLASH; SLASH; 120].
 Proof. repeat split. Qed.
+
+(* a session served with the default canonicalisation answers REALPATH canonically whatever was asked before *)
+Lemma realpath_default history root p :
+  let r := realpath_reply canonicalize history p in
+  r = canonicalize p /\
+  (exists t, r = SLASH :: t) /\
+  forallb clean (comps r) = true /\
+  resolve (root ++ r) = resolve root ++ comps r.
+Proof.
+  cbv zeta. unfold realpath_reply. destruct G_REALPATH_STATELESS;
+    (split; [reflexivity|]; split; [apply absolute|]; split; [apply components_clean|];
+     apply (inside_root root p)).
+Qed.
